@@ -1,6 +1,6 @@
 (* C03 - the default ranking follows the greedy max-residual (pivoted QR) rule.
    Model: LA/Gram.v - pivoted QR as pivoted Cholesky on the Gram matrix G = B B^T over exact rationals. *)
-From Coq Require Import List Arith QArith Qcanon.
+From Coq Require Import List Arith Lia QArith Qcanon.
 Import ListNotations.
 From PS Require Import Sel.ArgmaxGen Sel.Greedy Sel.Perm Sel.PermProofs LA.Sums LA.Gram LA.GramProofs LA.Dim LA.Ccqr LA.CcqrProofs.
 Close Scope Qc_scope.
@@ -77,3 +77,21 @@ Example C03_example :
   firstn 2 (gram_greedy 5 2 (gram 2 B)) = [3; 2] /\ check_greedy 0%Qc 0%Qc 5 (gram 2 B) [3; 2] = true /\
   check_greedy 0%Qc 0%Qc 5 (gram 2 B) [3; 4] = false.
 Proof. repeat split; vm_compute; reflexivity. Qed.
+
+(* non-vacuity of the rank theorem: rows 3 and 2 of the example matrix are sequentially independent (shown with the
+   residual machinery itself), so the hypothesis of C03_rank_r_pivots_positive is met with r = 2 *)
+Example C03_rank_hypothesis_met :
+  let B := of_rows [[q 3 1; q (-1) 1]; [q 0 1; q 0 1]; [q 1 1; q 4 1]; [q 6 1; q (-2) 1]; [q 2 1; q 2 1]] in
+  let idx := fun k => nth k [3; 2] 0 in
+  (forall k, k < 2 -> idx k < 5) /\ seq_indep 2 (fun k => B (idx k)) 2.
+Proof.
+  cbv zeta. split.
+  - intros [|[|k]] Hk; simpl; lia.
+  - intros [|[|k]] Hk; [| |lia].
+    + simpl. apply (positive_pivot_independent 2 5 _ _ [] 3 (resid_ok_init 2 5 _)); [lia|].
+      unfold Qclt. vm_compute. reflexivity.
+    + simpl. set (B := of_rows _).
+      pose proof (resid_ok_step 2 5 B B [] 3 ltac:(lia) (resid_ok_init 2 5 B)) as R1. simpl in R1.
+      apply (positive_pivot_independent 2 5 B _ [3] 2 R1); [lia|].
+      unfold Qclt. vm_compute. reflexivity.
+Qed.
